@@ -39,6 +39,9 @@ def plan(tier: str, seed: int):
                 ("ref_count/auto_connect (+ re-entrant subscribers), 3 steps",
                  _c(Wrs={"ref_count", "auto"}, Ns={0, 1, 2}, SrcIds={3}, Modes={"all", "spawn"}), None, None),
                 ("mapper forms, 3 steps", _c(Mps={"id", "dup", "take1"}, SrcIds={1}), None, None),
+                ("synchronously emitting cold sources (+ re-entrant connect), 3 steps",
+                 _c(Wrs={"none", "ref_count", "auto"}, Ns={1, 2}, Mps={"none", "id", "take1"}, SrcIds={11, 12}, Hots={False},
+                    Bs={1}, Modes={"all", "reconnect"}), None, None),
                 ("simulate all variants", _c(Bs={0, 1, 2, 99}, Ws={1, 2, 99}, **deep), "num=500", d)]
     nsim = 4000
     gen = dict(deep, SrcIds=set(), GenLen=3, TEnd=4)
@@ -98,7 +101,9 @@ def run(tier: str) -> int:
                "with each other and with source events, both orders) over cold and hot logged sources, for publish / "
                "publish_value / replay(buffer, window) connectables, ref_count / share, auto_connect(0..3), subscribers that "
                "unsubscribe themselves from inside their first delivery (take(1)), subscribers that subscribe another "
-               "observer from inside their first delivery (re-entrant subscribe), and the mapper "
+               "observer from inside their first delivery (re-entrant subscribe), cold sources that emit synchronously inside "
+               "subscribe (i.e. during connect()) with subscribers that call connect() again from inside their first delivery "
+               "(re-entrant connect), and the mapper "
                "forms of publish / publish_value / replay / multicast(subject_factory); enumerated lazily by TLC on "
                "Connectable.tla, each performed on every construction the library offers for the variant; non-trivial = "
                "at least one source subscription and one non-empty subscriber stream")
@@ -142,7 +147,8 @@ def run(tier: str) -> int:
         "TestScheduler runs actions in (due, seq) order (checked separately: C28); the replayer realises the scenario's "
         "same-instant order by the order in which it queues commands and creates sources",
         "source events live at instants >= 1 relative to a cold subscription (TestScheduler cold observables never emit "
-        "inside subscribe)",
+        "inside subscribe), except the offset-0 events of SrcTab rows 11-13, which the codec's SyncCold source delivers inside subscribe",
+        "the handle returned by a connect() call made re-entrantly while the outer connect() is still subscribing the source is not compared",
         "zero-length source subscriptions (connected and disconnected within one call) are outside the asserted projection",
         "auto_connect(n) is read as the docstring says: the connection is made when the n-th subscription ever occurs",
         "a windowed replay is only driven with the subject on the TestScheduler and under the 'src' order (deliveries are "
